@@ -20,11 +20,11 @@ SPEC = {
              "(eq, __cmp__), free_symbols, dumps -> loads, evalf, diff by each free symbol, subs (exceptions allowed): any crash, "
              "sanitizer report or abort is the violation. Non-trivial, measured by the target: loads returned an object; distinct by "
              "hash of the bytes given to loads."),
-    "assumptions": ["allocation requests above 4 MiB throw std::bad_alloc in the target (replaced operator new) as they would without "
+    "assumptions": ["allocation requests above 256 KiB throw std::bad_alloc in the target (replaced operator new) as they would without "
                     "ASan; GMP requests above 256 MiB, timeouts and out-of-memory are resource noise, counted, never reported",
                     "a returned non-canonical object is not by itself a violation",
                     "libFuzzer campaigns are only approximately reproducible; the saved artifact is the reproducible unit"],
-    "tiers": {"quick": {"workers": 8, "runs": 14000, "empty_workers": 1, "empty_runs": 14000, "max_len": 512},
+    "tiers": {"quick": {"workers": 8, "runs": 9000, "empty_workers": 1, "empty_runs": 9000, "max_len": 512},
               "thorough": {"workers": 16, "runs": 250000, "empty_workers": 2, "empty_runs": 250000, "max_len": 1024}},
 }
 
